@@ -422,6 +422,11 @@ def make_cases(ctx, extra):
             for (m, np_) in ((1, False), (3, False)):
                 cases.append({'group': group, 'p': p, 'm': m, 'no_prss': np_, 'seed': rng.randrange(1 << 30),
                               'PA': PA, 'PB': PB, 'e0': e0})
+    # both operands divisible by x (zero constant terms): the gcd family first strips the common power x^e with a SECRET roll
+    for p, PA, PB in ((31, [0, 2], [0, 4]), (31, [0, 0, 1, 0], [0, 0, 0, 1]), (101, [0, 3, 3, 0], [0, 1, 2, 1]), (11, [0, 0, 5], [0, 7, 0]),
+                      (31, [0, 1, 1, 0, 0], [0, 0, 2, 2, 0])):
+        for (m, np_) in ((1, False), (3, False)):
+            cases.append({'group': 'gcd', 'p': p, 'm': m, 'no_prss': np_, 'seed': rng.randrange(1 << 30), 'PA': PA, 'PB': PB})
     # zero polynomials with length bound 0 (what secpoly(poly(0)) and every coerced public 0 give): comparisons among them and
     # with padded zeros (repo fixes aa19fb2, a91215f: IndexError in _lt and in np_all of an empty array)
     for PA, PB in (([], []), ([], [0]), ([0, 0], []), ([], [3, 1])):
